@@ -49,6 +49,101 @@ fn c20_display(x: u32) -> (bool, String) {
     (s != exp || back != Some(x), format!("id {x} renders {s:?} (specified {exp:?}), parses back to {back:?}"))
 }
 
+// ---------------- C15: canned call histories for the error-frame obligations ----------------
+use hpo::annotations::{Disease, GeneId, OmimDiseaseId, OrphaDiseaseId};
+use hpo::builder::Builder;
+use hpo::Ontology;
+
+/// walks the read API of one ontology under catch_unwind and renders what it sees
+fn walk(ont: &Ontology) -> Result<String, String> {
+    let ont = panic::AssertUnwindSafe(ont);
+    panic::set_hook(Box::new(|_| {}));
+    let r = panic::catch_unwind(move || {
+        let mut ids: Vec<u32> = ont.iter().map(|t| t.id().as_u32()).collect();
+        ids.sort_unstable();
+        let mut out = String::new();
+        for id in ids {
+            let t = ont.hpo(id).unwrap();
+            let mut p: Vec<u32> = t.parents().map(|x| x.id().as_u32()).collect();
+            p.sort_unstable();
+            let mut c: Vec<u32> = t.children().map(|x| x.id().as_u32()).collect();
+            c.sort_unstable();
+            let mut a: Vec<u32> = t.all_parents().map(|x| x.id().as_u32()).collect();
+            a.sort_unstable();
+            let mut g: Vec<u32> = t.genes().map(|x| x.id().as_u32()).collect();
+            g.sort_unstable();
+            let mut o: Vec<u32> = t.omim_diseases().map(|x| x.id().as_u32()).collect();
+            o.sort_unstable();
+            let mut r: Vec<u32> = t.orpha_diseases().map(|x| x.id().as_u32()).collect();
+            r.sort_unstable();
+            out += &format!("T{id} p{p:?} c{c:?} a{a:?} g{g:?} o{o:?} r{r:?};");
+        }
+        let mut gs: Vec<(u32, Vec<u32>)> = ont
+            .genes()
+            .map(|g| (g.id().as_u32(), g.to_hpo_set(&ont).iter().map(|t| t.id().as_u32()).collect()))
+            .collect();
+        gs.sort();
+        let mut os: Vec<(u32, Vec<u32>)> = ont
+            .omim_diseases()
+            .map(|g| (g.id().as_u32(), g.to_hpo_set(&ont).iter().map(|t| t.id().as_u32()).collect()))
+            .collect();
+        os.sort();
+        let mut rs: Vec<(u32, Vec<u32>)> = ont
+            .orpha_diseases()
+            .map(|g| (g.id().as_u32(), g.to_hpo_set(&ont).iter().map(|t| t.id().as_u32()).collect()))
+            .collect();
+        rs.sort();
+        out += &format!("G{gs:?} O{os:?} R{rs:?}");
+        out
+    });
+    r.map_err(|_| "read API panicked".to_string())
+}
+
+/// history: terms 1,2; edge 1<-2; then the failing call; compare with the same history without it
+fn c15_history(which: &str) -> (bool, String) {
+    let build = |with_failing: bool| -> (Ontology, bool) {
+        let mut b = Builder::new();
+        b.new_term("root", 1u32);
+        b.new_term("child", 2u32);
+        let mut b = b.terms_complete();
+        b.add_parent(1u32, 2u32).unwrap();
+        let mut failed_as_expected = true;
+        if with_failing && which == "add_parent_missing_child" {
+            failed_as_expected = b.add_parent(1u32, 77u32).is_err();
+        }
+        if with_failing && which == "add_parent_missing_parent" {
+            failed_as_expected = b.add_parent(77u32, 2u32).is_err();
+        }
+        let mut b = b.connect_all_terms();
+        b.annotate_gene(GeneId::from(5u32), "G5", 2u32.into()).unwrap();
+        b.annotate_omim_disease(OmimDiseaseId::from(6u32), "O6", 2u32.into()).unwrap();
+        b.annotate_orpha_disease(OrphaDiseaseId::from(7u32), "R7", 2u32.into()).unwrap();
+        if with_failing && which == "annotate_gene_missing_term" {
+            failed_as_expected = b.annotate_gene(GeneId::from(9u32), "G9", 77u32.into()).is_err();
+        }
+        if with_failing && which == "annotate_omim_missing_term" {
+            failed_as_expected = b.annotate_omim_disease(OmimDiseaseId::from(9u32), "O9", 77u32.into()).is_err();
+        }
+        if with_failing && which == "annotate_orpha_missing_term" {
+            failed_as_expected = b.annotate_orpha_disease(OrphaDiseaseId::from(9u32), "R9", 77u32.into()).is_err();
+        }
+        (b.calculate_information_content().unwrap().build_minimal(), failed_as_expected)
+    };
+    let (with, is_err) = build(true);
+    let (without, _) = build(false);
+    let w = walk(&with);
+    let wo = walk(&without);
+    if !is_err {
+        return (true, format!("{which}: the call on a missing term did not return an error"));
+    }
+    match (w, wo) {
+        (Err(e), _) => (true, format!("{which}: after the rejected call the built ontology is not referentially closed: {e}")),
+        (Ok(a), Ok(b)) if a != b => (true, format!("{which}: rejected call changed the ontology: with={a} without={b}")),
+        (Ok(_), Ok(_)) => (false, format!("{which}: rejected call had no effect")),
+        (_, Err(e)) => (false, format!("{which}: baseline history failed: {e}")),
+    }
+}
+
 fn main() {
     let a: Vec<String> = std::env::args().collect();
     let kind = a.get(1).map(String::as_str).unwrap_or("");
@@ -64,6 +159,7 @@ fn main() {
             let b = bytes();
             c20_display(u32::from_le_bytes([b[0], b[1], b[2], b[3]]))
         }
+        k if k.starts_with("c15:") => c15_history(&k[4..]),
         _ => (false, format!("unknown replay kind {kind}")),
     };
     if bad {
